@@ -8,6 +8,7 @@ pub mod script;
 
 pub mod c01_quiescence;
 pub mod c02_arity;
+pub mod c04_primitives;
 pub mod c05_hosting;
 pub mod c06_cancel;
 pub mod c07_done;
@@ -24,6 +25,11 @@ pub const HARNESSES: &[(&str, fn())] = &[
     ("c02_arity_serialized_a", c09_registry::c02_arity_serialized_a),
     ("c02_arity_serialized_b", c09_registry::c02_arity_serialized_b),
     ("c02_arity_serialized_c", c09_registry::c02_arity_serialized_c),
+    ("c04_done_event", c04_primitives::c04_done_event),
+    ("c04_notify", c04_primitives::c04_notify),
+    ("c04_probe_map_event", c04_primitives::c04_probe_map_event),
+    ("c04_probe_then_unit", c04_primitives::c04_probe_then_unit),
+    ("c04_probe_and", c04_primitives::c04_probe_and),
     ("c06_task_abort_a", c06_cancel::c06_task_abort_a),
     ("c06_task_abort_b", c06_cancel::c06_task_abort_b),
     ("c06_command_abort_a", c06_cancel::c06_command_abort_a),
